@@ -23,12 +23,17 @@ def hkey(it, k):
     if is_sym(k): return it.concretize(k)
     if isinstance(k, int): return k
     if isinstance(k, Agg) and k.var is not None and not k.f: return (k.ty, k.var)
+    if isinstance(k, Agg) and k.var is not None and len(k.f) == 1 and isinstance(k.f[0], (StrRef, StrObj)):
+        t = conc_str(as_str(it, k.f[0]).chars())            # an enum variant carrying a string (Cell::Symbol as a set element)
+        if t is None: raise Unsupported('HashMap key: symbolic string')
+        return (k.ty, k.var, t)
     raise Unsupported('HashMap key %r' % (k,))
 
 
 def key_value(it, k, sample):
     """turn a dict key back into a run-time value"""
     if isinstance(k, str): return mkstr(k)
+    if isinstance(k, tuple) and len(k) == 3: return Agg(k[0], k[1], [mkstr(k[2])])
     if isinstance(k, tuple): return Agg(k[0], k[1], [])
     return k
 
@@ -65,8 +70,17 @@ def install(prog):
     def _(it, m, a):
         h = deref(a[0]); k = hkey(it, a[1])
         new = k not in h.d
-        h.d[k] = Cell(UNIT)
+        if new: h.d[k] = Cell(('elem', a[1]))          # the element itself is kept for iteration (sets of references)
         return new
+
+    @M(r'HashSet::<.*>::iter|<&HashSet<.*> as IntoIterator>::into_iter')
+    def _(it, m, a):
+        h = deref(a[0])
+        out = []
+        for k, c in h.d.items():
+            e = c.v[1] if isinstance(c.v, tuple) and c.v[0] == 'elem' else key_value(it, k, None)
+            out.append(Ref(Cell(e)))
+        return VecIntoIter(out)          # iteration order: insertion order (the real order is unspecified)
 
     @M(r'HashMap::<.*>::remove::<.*>')
     def _(it, m, a):
@@ -100,6 +114,21 @@ def install(prog):
         h = HMap()
         for x in a[0]: h.d[hkey(it, x)] = Cell(UNIT)
         return h
+
+    @M(r'<([A-Z][A-Z0-9_]*) as Deref>::deref')
+    def _(it, m, a):
+        # a lazy_static declared inside a function: its Deref impl is named after the span in the lazy_static crate; find it by its argument type
+        name = m.group(1)
+        memo = prog.__dict__.setdefault('_lazy_deref', {})
+        fn = memo.get(name)
+        if fn is None:
+            cands = [k for k, f in prog.funcs.items() if k.endswith('::deref') and 'lazy_static' in k and str(f.local_types().get('_1', '')).lstrip('&').split('::')[-1] == name]
+            if len(cands) != 1: raise Unsupported('lazy_static deref of %s: %d candidates' % (name, len(cands)))
+            fn = memo[name] = cands[0] + '::__static_ref_initialize'
+            if fn not in prog.funcs: raise Unsupported('lazy_static initializer of %s' % name)
+        lz = it.ghost.setdefault('_lazy', {})
+        if fn not in lz: lz[fn] = Ref(Cell(it.call(fn, [])))       # initialised once per path, like Lazy::get
+        return lz[fn]
 
     @M(r'lazy_static::lazy::Lazy::<.*>::get::<.*>')
     def _(it, m, a):
